@@ -120,6 +120,7 @@ type Spec struct {
 	Start     int        `json:"start"`
 	OnBounds  bool       `json:"on_bounds"`
 	TwoFiles  bool       `json:"two_files"`
+	SplitLex  bool       `json:"split_lexer"` // with TwoFiles: the lexer section is itself split over two files
 	Family    string     `json:"family"`
 	LexFamily string     `json:"lex_family"`
 }
@@ -381,6 +382,16 @@ func (s *Spec) ParserText() string {
 
 // LoxFiles returns the .lox files of the project (name -> text).
 func (s *Spec) LoxFiles() map[string]string {
+	if s.TwoFiles && s.SplitLex && len(s.Modes) > 0 && len(s.Modes[0].Rules) >= 2 {
+		// three files, two of which declare tokens: the numbering of terminals
+		// depends on the order in which lox reads them
+		def := s.Modes[0]
+		half := len(def.Rules) / 2
+		a := &Spec{Modes: []*LexMode{{Rules: def.Rules[:half]}}}
+		rest := append([]*LexMode{{Rules: def.Rules[half:]}}, s.Modes[1:]...)
+		b := &Spec{Modes: rest}
+		return map[string]string{"a_tokens.lox": a.LexerText(), "m_more_tokens.lox": b.LexerText(), "z_parser.lox": s.ParserText()}
+	}
 	if s.TwoFiles {
 		return map[string]string{"a_lexer.lox": s.LexerText(), "b_parser.lox": s.ParserText()}
 	}
